@@ -199,6 +199,28 @@ pub fn run(rt: &tokio::runtime::Runtime, cols: &[&str]) -> Value {
                 }
             }, json!({"bad_case": "unknown type"}))
         }
+        // pvf / povf <Family> <base> <hex text>: MessageParser::parse_variant_field / parse_optional_variant_field on a
+        // cursor over the text (the code path every layout uses for a field with options)
+        "pvf" | "povf" => {
+            let text = match unhex_str(cols[3]) {
+                Ok(s) => s,
+                Err(e) => return json!({"bad_case": e}),
+            };
+            with_field!(cols[1], T => {
+                let mut p = swift_mt_message::parser::MessageParser::new(&text, "103");
+                let r: Result<Option<T>, swift_mt_message::errors::ParseError> = if cols[0] == "pvf" {
+                    p.parse_variant_field::<T>(cols[2]).map(Some)
+                } else {
+                    p.parse_optional_variant_field::<T>(cols[2])
+                };
+                match r {
+                    Ok(Some(v)) => json!({"ok": true, "present": true, "ser": v.to_swift_string(), "json": serde_json::to_value(&v).unwrap_or(Value::Null),
+                                          "variant_tag": v.get_variant_tag(), "position": p.position(), "complete": p.is_complete()}),
+                    Ok(None) => json!({"ok": true, "present": false, "position": p.position()}),
+                    Err(e) => err_json(&e),
+                }
+            }, json!({"bad_case": "unknown field type"}))
+        }
         // body <MTnnn> <hex block-4 text>: T::parse_from_block4
         "body" => {
             let raw = match unhex_str(cols[2]) {
@@ -224,17 +246,29 @@ pub fn run(rt: &tokio::runtime::Runtime, cols: &[&str]) -> Value {
             }, json!({"bad_case": "unknown type"}))
         }
         // fparse <FieldType> <letter or _> <hex content>: T::parse / T::parse_with_variant
-        "fparse" => {
+        "fparse" | "fparse_raw" => {
             let content = match unhex_str(cols[3]) {
                 Ok(s) => s,
                 Err(e) => return json!({"bad_case": e}),
             };
+            // fparse: a letter means "as MessageParser::parse_named_variant does it" (no letter -> None, and the
+            // value must print under the tag it was read from); fparse_raw passes Some(letter) straight through
+            let raw = cols[0] == "fparse_raw";
             let letter = if cols[2] == "_" { None } else { Some(cols[2].trim_start_matches('=')) };
             with_field!(cols[1], T => {
                 let r = match letter {
                     None => <T as SwiftField>::parse(&content),
-                    Some(l) => <T as SwiftField>::parse_with_variant(&content, Some(l), None),
+                    Some(l) if raw => <T as SwiftField>::parse_with_variant(&content, Some(l), None),
+                    Some(l) => <T as SwiftField>::parse_with_variant(&content, if l.is_empty() { None } else { Some(l) }, None),
                 };
+                if let (Ok(v), Some(l), false) = (&r, letter, raw) {
+                    let ser = v.to_swift_string();
+                    let tag: String = ser.strip_prefix(':').map(|x| x.split(':').next().unwrap_or("").to_string()).unwrap_or_default();
+                    let pl: String = tag.chars().skip_while(|ch| ch.is_ascii_digit()).collect();
+                    if pl != l {
+                        return json!({"ok": false, "relabelled_to": tag, "display": format!("content is not a valid option '{}'", l)});
+                    }
+                }
                 match r {
                     Ok(v) => {
                         let ser = v.to_swift_string();
@@ -251,7 +285,7 @@ pub fn run(rt: &tokio::runtime::Runtime, cols: &[&str]) -> Value {
                             (Some((_, c)), None) => Some(<T as SwiftField>::parse(c)),
                             (Some((tag, c)), Some(_)) => {
                                 let l: String = tag.chars().skip_while(|ch| ch.is_ascii_digit()).collect();
-                                Some(<T as SwiftField>::parse_with_variant(c, Some(&l), None))
+                                Some(<T as SwiftField>::parse_with_variant(c, if l.is_empty() && !raw { None } else { Some(&l) }, None))
                             }
                             _ => None,
                         };
